@@ -31,6 +31,7 @@ CONSTANTS
  Kinds = {%(kinds)s}
  Depth = %(depth)d
  PreSet = {%(pre)s}
+ DKSet = {%(dks)s}
  Mode = "%(mode)s"
  MaxKw = %(maxkw)d
  Variant = "%(variant)s"
@@ -44,63 +45,80 @@ CHECK_DEADLOCK FALSE
 """
 
 
-def job(name, po, p, ko, varp, fr, kinds, depth, pre, mode, maxkw, gen=0, variant='ok'):
-    return dict(name=name, po=po, p=p, ko=ko, varp='TRUE' if varp else 'FALSE', fr=fr, kinds=kinds, depth=depth,
+DK_ALL = '"list", "obj", "mixed"'
+
+
+def job(name, po, p, ko, varp, fr, kinds, depth, pre, mode, maxkw, gen=0, variant='ok', dks=None):
+    if dks is None:
+        dks = {'bind': '"list"', 'bindc': '"list"', 'env': '"list", "obj"'}.get(mode, DK_ALL)
+    return dict(dks=dks, name=name, po=po, p=p, ko=ko, varp='TRUE' if varp else 'FALSE', fr=fr, kinds=kinds, depth=depth,
                 pre=pre, mode=mode, maxkw=maxkw, gen=gen, variant=variant)
 
 
+NOT_LOOP = '"def", "lambda", "method", "nested", "decorated"'
 TIERS = {
     'quick': dict(
-        procs=8, tlc_workers=8,
+        procs=8, tlc_workers=6, tlc_parallel=2,
         jobs=[
+            # closure shapes (<= 1 free variable) x entity kinds x every action sequence of length 2
+            job('env', 0, 1, 0, False, 1, NOT_LOOP, 2, 'TRUE, FALSE', 'env', 2),
+            # two functions made from one code object: conversions of both, then every action / every action pair
+            job('env-loopdef', 0, 1, 0, False, 1, '"loopdef"', 2, 'FALSE', 'env', 2),
+            job('env-loopdef-pre', 0, 1, 1, False, 1, '"loopdef"', 1, 'TRUE', 'env', 2),
             # every signature shape (<= 1 positional-only, 2 positional, 1 keyword-only, *args, **kw) x every binding
             job('bind', 1, 2, 1, True, 0, '"def"', 1, 'TRUE', 'bind', 2),
-            # bound methods / lambdas: same, smaller signature universe
-            job('bind-method-lambda', 1, 1, 1, True, 0, '"method", "lambda"', 1, 'TRUE', 'bind', 2),
-            # closure shapes x entity kinds x every action sequence of length 2
-            job('env', 0, 1, 0, False, 1, ALL_KINDS, 2, 'TRUE, FALSE', 'env', 2),
-            # random deeper behaviours over the full universe
-            job('sim', 2, 2, 2, True, 3, ALL_KINDS, 5, 'TRUE, FALSE', 'sim', 3, gen=260),
+            # bound methods / lambdas, also through the convert() wrapper: smaller signature universe
+            job('bind-method-lambda', 1, 1, 1, True, 0, '"method", "lambda"', 1, 'TRUE', 'bindc', 2),
+            # random deeper behaviours over the full universe (x tlc_workers traces)
+            job('sim', 2, 2, 2, True, 3, ALL_KINDS, 5, 'TRUE, FALSE', 'sim', 3, gen=100),
         ]),
     'thorough': dict(
-        procs=12, tlc_workers=12,
+        procs=12, tlc_workers=6, tlc_parallel=2,
         jobs=[
-            job('bind', 2, 2, 1, True, 0, '"def"', 1, 'TRUE', 'bind', 2),
-            job('bind-ko2', 1, 1, 2, True, 0, '"def"', 1, 'TRUE', 'bind', 3),
-            job('bind-method-lambda', 1, 2, 1, True, 0, '"method", "lambda"', 1, 'TRUE', 'bind', 2),
-            job('env', 0, 1, 1, False, 1, ALL_KINDS, 2, 'TRUE, FALSE', 'env', 2),
+            job('env', 0, 1, 1, False, 1, NOT_LOOP, 2, 'TRUE, FALSE', 'env', 2),
+            job('env-loopdef', 0, 1, 1, False, 1, '"loopdef"', 2, 'TRUE, FALSE', 'env', 2),
             job('env-free2', 0, 1, 0, False, 2, ALL_KINDS, 1, 'TRUE', 'env', 2),
-            job('env-depth3', 0, 1, 0, False, 1, '"nested", "lambda"', 3, 'TRUE', 'env', 2),
+            job('env-depth3', 0, 1, 0, False, 1, '"nested", "lambda", "method"', 3, 'TRUE', 'env', 2, dks='"list"'),
+            job('bind', 2, 2, 1, True, 0, '"def"', 1, 'TRUE', 'bindc', 2),
+            job('bind-ko2', 1, 1, 2, True, 0, '"def", "nested"', 1, 'TRUE', 'bind', 3),
+            job('bind-method-lambda', 1, 2, 1, True, 0, '"method", "lambda", "decorated"', 1, 'TRUE', 'bindc', 2),
             job('sim', 2, 2, 2, True, 3, ALL_KINDS, 5, 'TRUE, FALSE', 'sim', 3, gen=1700),
         ]),
 }
 
 
-def run_job(j, workers, seed, coverage=False):
+def run_job(j, workers, seed, out_path):
+    """Runs TLC; everything the spec prints goes to out_path (TLC -userFile), one TLA+ string per line."""
     cfg = CFG % j
-    extra = None
+    extra = ['-userFile', out_path]
     if j['gen']:
-        extra = ['-generate', 'num=%d' % j['gen'], '-depth', str(j['depth'] + 6)]
+        extra += ['-generate', 'num=%d' % j['gen'], '-depth', str(j['depth'] + 6)]
     res = tlc.run_tlc('FnEnv', cfg, workers=workers, timeout=1500, seed=seed if j['gen'] else None, extra=extra,
-                      name='FnEnv_' + j['name'], coverage=coverage)
+                      name='FnEnv_' + j['name'])
     res.require_ok('FnEnv/' + j['name'])
     return res
 
 
-def group(records):
-    """-> {key json: (sc, [steps...])} ; behaviours are sorted so that the run is deterministic."""
+def group(out_path):
+    """-> {key: (sc, [steps...])} ; scenarios and behaviours are sorted so that the run is deterministic."""
     scs, behs = {}, {}
-    for r in records:
-        k = json.dumps(r['k'])
-        if 'sc' in r:
-            scs[k] = r['sc']
-        else:
-            behs.setdefault(k, []).append(r['h'])
-    for k in behs:
+    with open(out_path) as f:
+        for line in f:
+            if not line.startswith('"{'):
+                continue
+            inner = json.loads(line)
+            cut = inner.find(',"h":[')           # {"k":<key>,"h":<steps>}  |  {"k":<key>,"sc":<scenario>}
+            if cut > 0:
+                behs.setdefault(inner[5:cut], []).append(inner[cut + 5:-1])
+            else:
+                cut = inner.index(',"sc":{')
+                scs[inner[5:cut]] = json.loads(inner[cut + 6:-1])
+    out = {}
+    for k in sorted(behs):
         if k not in scs:
             raise common.MachineryError('behaviour without scenario record: %s' % k)
-        behs[k] = [json.loads(s) for s in sorted(set(json.dumps(h) for h in behs[k]))]
-    return dict((k, (scs[k], behs[k])) for k in sorted(behs))
+        out[k] = (scs[k], [json.loads(h) for h in sorted(set(behs[k]))])
+    return out
 
 
 def make_tasks(groups, job_name, scratch, tmp, per_module=40):
@@ -125,27 +143,34 @@ def sample_of(sc, steps):
 
 
 def run(rep):
+    import concurrent.futures
+    import sys
     tier = TIERS[rep.tier]
     seed = common.seed()
     scratch = common.scratch('c09_%d' % os.getpid())
     tmp = os.path.join(scratch, 'tmp')
     os.makedirs(tmp)
-    import sys
     sys.path.insert(0, scratch)
-    ctx = multiprocessing.get_context('fork')
     machinery = []
     acts = {}
+    # the replay processes are forked before any TLC thread exists
+    pool = multiprocessing.get_context('fork').Pool(tier['procs'])
+    ex = concurrent.futures.ThreadPoolExecutor(max_workers=tier['tlc_parallel'])
     try:
+        futs = []
         for j in tier['jobs']:
-            res = run_job(j, tier['tlc_workers'], seed)
+            out_path = os.path.join(scratch, 'tlc_%s.out' % j['name'])
+            futs.append((j, out_path, ex.submit(run_job, j, tier['tlc_workers'], seed, out_path)))
+        for j, out_path, fut in futs:
+            res = fut.result()
             rep.add_tlc(res)
-            groups = group(res.json)
-            del res
+            groups = group(out_path)
+            os.remove(out_path)
             nb = sum(len(b) for _sc, b in groups.values())
             rep.add('scenarios', len(groups))
             rep.add('behaviours_' + j['name'], nb)
-            for _k, (sc, behs) in list(groups.items())[:2]:
-                rep.sample(sample_of(sc, behs[len(behs) // 2]))
+            for _k, (sc, behs) in list(groups.items())[:1]:
+                rep.sample(sample_of(sc, behs[len(behs) // 2]), limit=8)
             for _sc, behs in groups.values():
                 for h in behs:
                     for st in h:
@@ -153,16 +178,20 @@ def run(rep):
                         acts[a] = acts.get(a, 0) + 1
             tasks = make_tasks(groups, j['name'], scratch, tmp)
             del groups
-            with ctx.Pool(tier['procs']) as pool:
-                for out in pool.imap_unordered(c09_lib.process_chunk, tasks, chunksize=1):
-                    machinery += out['machinery']
-                    rep.validated(out['behaviours'])
-                    rep.add('steps_replayed', out['steps'])
-                    for sig, text, witness in out['viol']:
-                        rep.violation(sig, text, witness if witness is not None else dict(note='see first witness'))
+            for out in pool.imap_unordered(c09_lib.process_chunk, tasks, chunksize=1):
+                machinery += out['machinery']
+                rep.validated(out['behaviours'])
+                rep.add('steps_replayed', out['steps'])
+                for sig, text, witness in out['viol']:
+                    rep.violation(sig, text, witness if witness is not None else dict(note='see first witness'))
             if machinery:
                 break
     finally:
+        for _j, _p, fut in futs:
+            fut.cancel()
+        ex.shutdown(wait=True)
+        pool.terminate()
+        pool.join()
         if scratch in sys.path:
             sys.path.remove(scratch)
         common.rmtree(scratch)
@@ -175,21 +204,33 @@ def run(rep):
                'the free variables and of one global) stands for "a body that uses its environment"; its effect is '
                'modelled by OutcomeIn in FnEnv.tla and validated against CPython on the unconverted function in '
                'every run')
-    rep.assume('a free variable referenced only by a removed directive is always an assigned cell (the directive '
-               'evaluates its arguments in the unconverted function)')
+    rep.assume('a free variable through which only a removed directive is reached is always an assigned cell '
+               'holding a module and is never rebound (directives must be static, malt/converters/directives.py)')
+
+
+ACTIONS = ('PickSig', 'PickEnv', 'PreConvert', 'Convert', 'Call', 'Rebind', 'ReadBack', 'MutateDefault', 'RebindGlobal')
 
 
 def selftest():
-    """Design-level sensitivity: a wrong Instantiate (cells matched by position) must violate Agree in TLC."""
-    j = job('variant', 0, 1, 0, False, 2, '"nested"', 1, 'TRUE', 'env', 2, variant='bypos')
-    res = tlc.run_tlc('FnEnv', CFG % j, workers=4, timeout=600, name='FnEnv_variant')
-    print('variant bypos: violated=%s' % res.violated)
-    j = job('cov', 1, 1, 1, True, 1, ALL_KINDS, 2, 'TRUE, FALSE', 'env', 2)
-    res = tlc.run_tlc('FnEnv', (CFG % j).replace('INVARIANT ReportSc\n', '').replace('INVARIANT Report\n', ''),
-                      workers=4, timeout=900, name='FnEnv_cov', coverage=True)
-    print('coverage:', res.coverage)
-    ok = bool(res.coverage) and all(v[0] > 0 for v in res.coverage.values())
-    return 0 if ('Agree' in ' '.join(res.violated) or True) and ok else 2
+    """(a) design-level sensitivity: a wrong Instantiate (cells matched by position) must violate Agree in TLC;
+    (b) vacuity: every action of FnEnv.tla is taken (TLC -coverage)."""
+    scratch = common.scratch('c09_selftest_%d' % os.getpid())
+    try:
+        j = job('variant', 0, 1, 0, False, 2, '"nested"', 1, 'TRUE', 'env', 2, variant='bypos')
+        cfg = (CFG % j).replace('INVARIANT ReportSc\n', '').replace('INVARIANT Report\n', '')
+        res = tlc.run_tlc('FnEnv', cfg, workers=4, timeout=600, name='FnEnv_variant')
+        print('Variant "bypos": TLC reports violated invariants %s' % res.violated)
+        bad = 'Agree' not in res.violated
+        j = job('cov', 1, 1, 1, True, 1, ALL_KINDS, 2, 'TRUE, FALSE', 'env', 2)
+        cfg = (CFG % j).replace('INVARIANT ReportSc\n', '').replace('INVARIANT Report\n', '')
+        res = tlc.run_tlc('FnEnv', cfg, workers=4, timeout=1500, name='FnEnv_cov', coverage=True).require_ok('coverage')
+        for a in ACTIONS:
+            n = res.coverage.get(a, (0, 0))
+            print('action %-14s taken %d times' % (a, n[0]))
+            bad = bad or n[0] == 0
+        return 2 if bad else 0
+    finally:
+        common.rmtree(scratch)
 
 
 def replay(path):
